@@ -377,9 +377,10 @@ def baseline_paths():
             baseline_paths.adts = d.get("adts", {}) if isinstance(d, dict) else {}
             baseline_paths.mods = d.get("mods", {}) if isinstance(d, dict) else {}
             baseline_paths.sigs = d.get("sigs", {}) if isinstance(d, dict) else {}
+            baseline_paths.bodies = d.get("bodies", {}) if isinstance(d, dict) else {}
         except OSError:
             BASELINE = set()
-            baseline_paths.adts, baseline_paths.mods, baseline_paths.sigs = {}, {}, {}
+            baseline_paths.adts, baseline_paths.mods, baseline_paths.sigs, baseline_paths.bodies = {}, {}, {}, {}
     return BASELINE
 
 
@@ -390,6 +391,44 @@ def adt_key(a):
     def t(x):
         return re.sub(r"crate::(?:[A-Za-z0-9_]+::)*", "", x or "")
     return [[t(f.get("ty")) for f in v.get("fields", [])] for v in a.get("variants", [])]
+
+
+def body_shape(b):
+    """A fingerprint of a MIR body that does not mention any crate-local name: block count, statement / terminator kinds,
+    projections, literal integers, arity of calls and whether each callee is crate-local."""
+    import hashlib
+    h = hashlib.sha256()
+    mir = b.get("mir") or {}
+    h.update(("%d|%d|" % (mir.get("arg_count", 0), len(mir.get("blocks", [])))).encode())
+    for blk in mir.get("blocks", []):
+        for st in blk.get("stmts", []):
+            rv = st.get("rv") or {}
+            h.update(("s:%s:%s:%s;" % (st.get("k"), rv.get("k"), rv.get("op") if isinstance(rv.get("op"), str) else "")).encode())
+            for o in (rv.get("ops") or []) + [x for x in (rv.get("a"), rv.get("b"), rv.get("op")) if isinstance(x, dict)]:
+                if o.get("k") == "const" and "int" in o:
+                    h.update(("c%s;" % o["int"]).encode())
+            h.update(("p%d;" % len((st.get("place") or {}).get("p", []))).encode())
+        t = blk.get("term") or {}
+        h.update(("t:%s:" % t.get("k")).encode())
+        if t.get("k") == "call":
+            fn = t.get("fn") or {}
+            d = fn.get("res_def") or fn.get("def") or ""
+            h.update(("%d:%s;" % (len(t.get("args", [])), "L" if d.startswith("crate::") or d.startswith("<crate::") else d)).encode())
+        elif t.get("k") == "switch":
+            h.update((",".join(str(a[0]) for a in t.get("arms", [])) + ";").encode())
+    return h.hexdigest()[:16]
+
+
+def container_of(path):
+    """`<T as Tr>::f` → `<T as Tr>` ; `a::b::f` → `a::b`"""
+    return path.rsplit("::", 1)[0] if "::" in path else ""
+
+
+def body_key(b):
+    import re
+    def t(x):
+        return re.sub(r"crate::(?:[A-Za-z0-9_]+::)*", "", x or "")
+    return [[t(x) for x in (b.get("inputs") or [])], t(b.get("output")), body_shape(b)]
 
 
 def baseline_record(raw):
@@ -403,7 +442,8 @@ def baseline_record(raw):
                 kids.add(p[len(m) + 2:])
         mods[m] = sorted(kids)
     sigs = {b["path"]: [len(b.get("inputs") or []), b.get("output")] for b in raw.get("bodies", []) if b.get("impl_trait")}
-    return {"paths": paths, "sigs": sigs, "adts": {a["path"]: {"key": adt_key(a), "fields": [[f["name"] for f in v.get("fields", [])] for v in a.get("variants", [])],
+    bodies = {b["path"]: body_key(b) for b in raw.get("bodies", []) if b.get("kind") in ("Fn", "AssocFn") and b.get("inputs") is not None}
+    return {"paths": paths, "sigs": sigs, "bodies": bodies, "adts": {a["path"]: {"key": adt_key(a), "fields": [[f["name"] for f in v.get("fields", [])] for v in a.get("variants", [])],
                                                  "variants": [v.get("name") for v in a.get("variants", [])]} for a in raw.get("adts", [])}, "mods": mods}
 
 
@@ -544,6 +584,51 @@ def canonical_rewrites(raw):
             if q in base and q not in cur and q != p:
                 rw[p] = q
                 break
+    # (4) a private function or method that was only renamed: same container (after the rewrites so far), same signature and
+    # the same body fingerprint, old name gone, new name not in the pinned tree
+    bbod = getattr(baseline_paths, "bodies", {})
+    if bbod:
+        def canon2(p0):
+            for o, n in sorted(rw.items(), key=lambda kv: -len(kv[0])):
+                p0 = re.sub(re.escape(o) + r"(?![A-Za-z0-9_])", lambda m_, n=n: n, p0)
+            return p0
+        curb = {}
+        for b in raw.get("bodies", []):
+            if b.get("kind") in ("Fn", "AssocFn") and b.get("inputs") is not None:
+                curb[b["path"]] = b
+        cur_canon = {canon2(p0): p0 for p0 in curb}
+        missing = [p0 for p0 in bbod if p0 not in cur_canon]
+        new = [(c, p0) for c, p0 in cur_canon.items() if c not in bbod and c not in base]
+        by_cont = {}
+        for c, p0 in new:
+            by_cont.setdefault(container_of(c), []).append((c, p0))
+        trait_votes = {}
+        for pm in missing:
+            cands = []
+            for c, p0 in by_cont.get(container_of(pm), []):
+                k = body_key(curb[p0])
+                kb = bbod[pm]
+                if k[2] == kb[2] and len(k[0]) == len(kb[0]):
+                    cands.append((c, p0))
+            if len(cands) == 1:
+                c, p0 = cands[0]
+                old_name, new_name = pm.rsplit("::", 1)[-1], c.rsplit("::", 1)[-1]
+                rw[p0] = pm
+                by_cont[container_of(pm)].remove(cands[0])
+                m0 = rxm.match(c)
+                if m0:
+                    trait_votes.setdefault((m0.group(2), new_name, old_name), 0)
+                    trait_votes[(m0.group(2), new_name, old_name)] += 1
+        # a trait method renamed in every impl: the declaration (and generic call sites `<T as Tr>::m`) follow
+        for (tr, new_name, old_name), n in trait_votes.items():
+            if n >= 1 and not any(t2 == tr and nn == new_name and oo != old_name for (t2, nn, oo) in trait_votes):
+                rw["%s>::%s" % (tr, new_name)] = "%s>::%s" % (tr, old_name)
+                rw["%s::%s" % (tr, new_name)] = "%s::%s" % (tr, old_name)
+                # current spelling of the trait path, if the trait itself was moved / renamed
+                for o, nn in list(rw.items()):
+                    if nn == tr:
+                        rw["%s>::%s" % (o, new_name)] = "%s>::%s" % (tr, old_name)
+                        rw["%s::%s" % (o, new_name)] = "%s::%s" % (tr, old_name)
     return sorted(rw.items(), key=lambda kv: -len(kv[0]))
 
 
